@@ -43,6 +43,9 @@ pub struct Obs {
     pub tick: u64,
     pub state_root: Hash,
     pub abs: Vec<String>,
+    /// Same lines restricted to content reachable from the root (what
+    /// `state_root` commits to, merkle-commit.md Decision 1).
+    pub reach: Vec<String>,
     pub init_root: Hash,
     pub chain: Vec<ChainRec>,
     pub meta: Vec<MetaRec>,
@@ -93,6 +96,65 @@ pub fn abs_lines(ws: &warp_core::WarpState) -> Vec<String> {
         }
         for (id, v) in store.iter_edge_attachments() {
             out.push(format!("B {w} {} {}", hex(&id.0), aval(v)));
+        }
+    }
+    out.sort();
+    out
+}
+
+/// Canonical lines of the content reachable from the worldline root: BFS over
+/// outbound edges and descended attachment portals (written from the
+/// statement of Decision 1, independent of `snapshot.rs`).
+#[must_use]
+pub fn reachable_lines(state: &WorldlineState) -> Vec<String> {
+    use std::collections::{BTreeSet, VecDeque};
+    let ws = state.warp_state();
+    let mut seen: BTreeSet<([u8; 32], [u8; 32])> = BTreeSet::new();
+    let mut q = VecDeque::new();
+    let root = *state.root();
+    seen.insert((root.warp_id.0, root.local_id.0));
+    q.push_back(root);
+    let mut out = Vec::new();
+    let descend = |v: Option<&AttachmentValue>, q: &mut VecDeque<warp_core::NodeKey>, seen: &mut BTreeSet<([u8; 32], [u8; 32])>| {
+        if let Some(AttachmentValue::Descend(w2)) = v {
+            if let Some(inst) = ws.instance(w2) {
+                if seen.insert((w2.0, inst.root_node.0)) {
+                    q.push_back(warp_core::NodeKey {
+                        warp_id: *w2,
+                        local_id: inst.root_node,
+                    });
+                }
+            }
+        }
+    };
+    while let Some(k) = q.pop_front() {
+        let Some(store) = ws.store(&k.warp_id) else { continue };
+        let w = hex(&k.warp_id.0[..6]);
+        if let Some(rec) = store.node(&k.local_id) {
+            out.push(format!("N {w} {} ty={}", hex(&k.local_id.0), hex(&rec.ty.0)));
+        }
+        if let Some(v) = store.node_attachment(&k.local_id) {
+            out.push(format!("A {w} {} {}", hex(&k.local_id.0), aval(v)));
+        }
+        descend(store.node_attachment(&k.local_id), &mut q, &mut seen);
+        for e in store.edges_from(&k.local_id) {
+            out.push(format!(
+                "E {w} {} from={} to={} ty={}",
+                hex(&e.id.0),
+                hex(&e.from.0),
+                hex(&e.to.0),
+                hex(&e.ty.0)
+            ));
+            if let Some(v) = store.edge_attachment(&e.id) {
+                out.push(format!("B {w} {} {}", hex(&e.id.0), aval(v)));
+            }
+            descend(store.edge_attachment(&e.id), &mut q, &mut seen);
+            if seen.insert((k.warp_id.0, e.to.0)) {
+                q.push_back(warp_core::NodeKey {
+                    warp_id: k.warp_id,
+                    local_id: e.to,
+                });
+            }
         }
     }
     out.sort();
@@ -197,6 +259,7 @@ pub fn observe(state: &WorldlineState, with_tx: bool) -> Obs {
         tick: state.current_tick().as_u64(),
         state_root: state.state_root(),
         abs: abs_lines(state.warp_state()),
+        reach: reachable_lines(state),
         init_root: warp_core::verif::state_root(state.initial_state(), state.root()),
         chain,
         meta,
@@ -242,6 +305,9 @@ impl Obs {
             ));
         }
         if self.abs != other.abs {
+            if self.reach == other.reach {
+                return Some(("unreachable-state", first_line_diff(&self.abs, &other.abs)));
+            }
             return Some(("state", first_line_diff(&self.abs, &other.abs)));
         }
         if self.init_root != other.init_root {
@@ -298,13 +364,13 @@ impl Obs {
                     "decision_digest"
                 } else if a.rewrites != b.rewrites {
                     "rewrites_digest"
-                } else if a.blocked_by != b.blocked_by {
-                    "receipt.blocked_by"
                 } else if a.receipt_digest != b.receipt_digest
                     || a.receipt_entries != b.receipt_entries
                     || a.receipt_tx != b.receipt_tx
                 {
                     "receipt"
+                } else if a.blocked_by != b.blocked_by {
+                    "receipt.blocked_by"
                 } else {
                     "replay_patch"
                 };
@@ -342,5 +408,117 @@ impl Obs {
             v.extend_from_slice(&c);
         }
         v
+    }
+}
+
+/// 64-bit fingerprint of everything `observe` extracts except `tx_counter`
+/// (which callers compare separately when they sampled it). Binary, sorted by
+/// id — same layout independence as `abs_lines`, but cheap enough for the
+/// exhaustive seek matrix.
+#[must_use]
+pub fn fast_fp(state: &WorldlineState) -> u64 {
+    let mut h = blake3::Hasher::new();
+    let ws = state.warp_state();
+    h.update(&state.current_tick().as_u64().to_le_bytes());
+    h.update(&state.state_root());
+    h.update(&warp_core::verif::state_root(state.initial_state(), state.root()));
+    for inst in warp_core::verif::instances(ws) {
+        h.update(b"I");
+        h.update(&inst.warp_id.0);
+        h.update(&inst.root_node.0);
+        h.update(format!("{:?}", inst.parent).as_bytes());
+    }
+    for wid in warp_core::verif::store_ids(ws) {
+        let Some(store) = ws.store(&wid) else { continue };
+        h.update(b"S");
+        h.update(&wid.0);
+        for (id, rec) in store.iter_nodes() {
+            h.update(b"N");
+            h.update(&id.0);
+            h.update(&rec.ty.0);
+        }
+        let mut edges: Vec<&warp_core::EdgeRecord> =
+            store.iter_edges().flat_map(|(_, v)| v.iter()).collect();
+        edges.sort_by(|a, b| a.id.0.cmp(&b.id.0));
+        for e in edges {
+            h.update(b"E");
+            h.update(&e.id.0);
+            h.update(&e.from.0);
+            h.update(&e.to.0);
+            h.update(&e.ty.0);
+        }
+        for (id, v) in store.iter_node_attachments() {
+            h.update(b"A");
+            h.update(&id.0);
+            fp_aval(&mut h, v);
+        }
+        for (id, v) in store.iter_edge_attachments() {
+            h.update(b"B");
+            h.update(&id.0);
+            fp_aval(&mut h, v);
+        }
+    }
+    let fp_snap = |h: &mut blake3::Hasher, s: &warp_core::Snapshot| {
+        h.update(&s.hash);
+        h.update(&s.state_root);
+        h.update(&(s.parents.len() as u64).to_le_bytes());
+        for p in &s.parents {
+            h.update(p);
+        }
+        h.update(&s.patch_digest);
+        h.update(&s.policy_id.to_le_bytes());
+        h.update(&s.tx.value().to_le_bytes());
+        h.update(&s.root.warp_id.0);
+        h.update(&s.root.local_id.0);
+        h.update(&s.plan_digest);
+        h.update(&s.decision_digest);
+        h.update(&s.rewrites_digest);
+    };
+    h.update(&(state.tick_history().len() as u64).to_le_bytes());
+    for (snap, receipt, patch) in state.tick_history() {
+        fp_snap(&mut h, snap);
+        h.update(&receipt.tx().value().to_le_bytes());
+        h.update(&receipt.digest());
+        h.update(&(receipt.entries().len() as u64).to_le_bytes());
+        for i in 0..receipt.entries().len() {
+            for b in receipt.blocked_by(i) {
+                h.update(&b.to_le_bytes());
+            }
+            h.update(b"|");
+        }
+        h.update(&patch.digest());
+        h.update(&(patch.ops().len() as u64).to_le_bytes());
+    }
+    match state.last_snapshot() {
+        Some(s) => {
+            h.update(b"L1");
+            fp_snap(&mut h, s);
+        }
+        None => {
+            h.update(b"L0");
+        }
+    }
+    for c in state.last_materialization() {
+        h.update(b"M");
+        h.update(&c.channel.0);
+        h.update(&(c.data.len() as u64).to_le_bytes());
+        h.update(&c.data);
+    }
+    let d = h.finalize();
+    u64::from_le_bytes(d.as_bytes()[..8].try_into().unwrap_or([0; 8]))
+}
+
+fn fp_aval(h: &mut blake3::Hasher, v: &AttachmentValue) {
+    match v {
+        AttachmentValue::Atom(a) => {
+            h.update(b"a");
+            h.update(&a.type_id.0);
+            h.update(&(a.bytes.len() as u64).to_le_bytes());
+            h.update(a.bytes.as_ref());
+        }
+        AttachmentValue::Descend(w) => {
+            h.update(b"d");
+            h.update(&w.0);
+        }
     }
 }
